@@ -27,7 +27,7 @@
  * bytes out in g_in[] and records
  *     g_off[i]    physical offset of logical character i (g_in_n for i >= g_m)
  *     g_nlcum[j]  number of new-line bytes in g_in[0..j)          (physical lines completed before offset j)
- *     g_colof[j]  1-based column of offset j on its physical line (the first line starts at column g_col0 + 1)
+ *     g_colof(j)  1-based column of offset j on its physical line (the first line starts at column g_col0 + 1)
  * "splices inserted at every position": every g_k[i] is symbolic in 0..GS_KMAX.
  */
 #ifndef GS_LMAX
@@ -37,13 +37,17 @@
 #define GS_KMAX 1        /* backslash-newline pairs in front of each logical character */
 #endif
 #define GS_PMAX (GS_LMAX * (2 * GS_KMAX + 1) + 2 * GS_KMAX)     /* physical bytes */
+#ifndef GS_TABMAX
+#define GS_TABMAX GS_PMAX   /* line/column tables cover offsets 0..GS_TABMAX */
+#endif
 
 int g_L[GS_LMAX + 6];
 unsigned g_k[GS_LMAX + 1];
 size_t g_m;
 size_t g_off[GS_LMAX + 6];
-size_t g_nlcum[G_IN_MAX + 2];
-size_t g_colof[G_IN_MAX + 2];
+unsigned char g_nlcum[G_IN_MAX + 2];   /* small counts: the window has at most G_IN_MAX bytes */
+unsigned char g_colrel[G_IN_MAX + 2];  /* column of offset j counted from the last new-line (or from offset 0) */
+#define g_colof(j) ((size_t)g_colrel[j] + (g_nlcum[j] == 0 ? g_col0 : 0))
 size_t g_line0, g_col0;      /* line number of offset 0 and the column in front of offset 0 */
 
 #pragma CPROVER check push
@@ -58,11 +62,12 @@ size_t g_line0, g_col0;      /* line number of offset 0 and the column in front 
 static void
 gs_tables(void)
 {
-	size_t j, nl = 0, col = g_col0;
+	size_t j;
+	unsigned char nl = 0, col = 0;
 
-	for (j = 0; j <= G_IN_MAX; j++) {
+	for (j = 0; j <= GS_TABMAX; j++) {
 		g_nlcum[j] = nl;
-		g_colof[j] = col + 1;
+		g_colrel[j] = col + 1;
 		if (j < g_in_n && j < G_IN_MAX && g_in[j] == '\n') {
 			++nl;
 			col = 0;
@@ -99,7 +104,9 @@ gs_build(size_t m)
 		g_off[i] = w;
 	}
 	ghost_in_reset(w);
+#ifndef GS_NO_TABLES
 	gs_tables();
+#endif
 }
 
 /* the decomposition is the canonical one: a lone backslash is never directly followed by a new-line */
@@ -151,7 +158,7 @@ gs_splices_at(size_t p)
  */
 #define SYNC_LINE(s)  ((s)->loc.line == g_line0 + g_nlcum[g_in_pos])
 #define CHR_OFF       (g_in_pos > 0 ? g_in_pos - 1 : 0)
-#define SYNC_COL(s)   ((s)->loc.col == ((s)->chr == '\n' ? 0 : (s)->chr == LEX_EOF ? g_colof[g_in_n] : g_colof[CHR_OFF]))
+#define SYNC_COL(s)   ((s)->loc.col == ((s)->chr == '\n' ? 0 : (s)->chr == LEX_EOF ? g_colof(g_in_n) : g_colof(CHR_OFF)))
 
 /* the scanner stands on logical character i: it is in s->chr and the stream continues right after it */
 #define GS_POS_AFTER(i) ((size_t)(i) < g_m ? g_off[i] + 1 : g_in_n)
@@ -201,7 +208,7 @@ nextchar_spec(struct scanner *s)
 static struct scanner gs_scanner;
 
 static struct scanner *
-gs_scanner_at0(bool sawspace, bool have_buf)
+gs_scanner_at0(bool sawspace, bool have_buf, bool sync, size_t line, size_t col)
 {
 	struct scanner *s = &gs_scanner;
 
@@ -221,8 +228,14 @@ gs_scanner_at0(bool sawspace, bool have_buf)
 	s->loc.file = "<ghost>";
 	s->chr = g_L[0];
 	g_in_pos = GS_POS_AFTER(0);
-	s->loc.line = g_line0 + g_nlcum[g_in_pos];
-	s->loc.col = s->chr == '\n' ? 0 : s->chr == LEX_EOF ? g_colof[g_in_n] : g_colof[CHR_OFF];
+	if (sync) {
+		/* location in step with the stream (needs gs_tables) */
+		s->loc.line = g_line0 + g_nlcum[g_in_pos];
+		s->loc.col = s->chr == '\n' ? 0 : s->chr == LEX_EOF ? g_colof(g_in_n) : g_colof(CHR_OFF);
+	} else {
+		s->loc.line = line;
+		s->loc.col = col;
+	}
 	return s;
 }
 
